@@ -10,6 +10,12 @@ find coq/theories \( -name '*.vo' -o -name '*.vok' -o -name '*.vos' -o -name '*.
 rm -rf ocaml/bin ocaml/build; mkdir -p ocaml/gen ocaml/bin
 ./tools/gen_coqproject.sh
 mkdir -p .cache
-(cd coq && timeout 3400 make -j16 > ../.cache/coq_build.log 2>&1) || { tail -60 .cache/coq_build.log; echo "setup: Coq build failed" >&2; exit 1; }
-for d in ocaml/*_driver.ml; do [ -f "$d" ] || continue; n=$(basename $d .ml); make -s -C ocaml bin/$n; done
-echo "setup ok"
+# full .vo build of everything (-k: a file of a property that is not yet claimed must not block the others)
+(cd coq && timeout 3400 make -k -j16 > ../.cache/coq_build.log 2>&1) || echo "setup: some Coq files did not build (see .cache/coq_build.log); checking the claimed ones"
+rc=0
+for p in $(cat manifest/_accepted.txt); do
+  [ -f "coq/theories/Properties/Properties_$p.vo" ] || { echo "setup: Properties_$p.vo was not built" >&2; grep -B2 -A12 "Error" .cache/coq_build.log | head -60; rc=1; }
+done
+for d in ocaml/*_driver.ml; do [ -f "$d" ] || continue; n=$(basename $d .ml); make -s -C ocaml bin/$n || { echo "setup: driver $n did not build" >&2; case " $(cat manifest/_accepted.txt | tr 'A-Z' 'a-z') " in *" ${n%%_driver} "*) rc=1;; esac; }; done
+[ $rc = 0 ] && echo "setup ok"
+exit $rc
